@@ -480,6 +480,10 @@ func (m *MultiAsset[T]) Add(assets *MultiAsset[T]) {
 		for asset, amount := range assets {
 			existing := m.Asset(policy, asset.Bytes())
 			newAmount := addAmounts(existing, amount)
+			if m.data == nil {
+				// zero-value MultiAsset, or one decoded from CBOR null
+				m.data = make(map[Blake2b224]map[cbor.ByteString]T)
+			}
 			if _, ok := m.data[policy]; !ok {
 				m.data[policy] = make(map[cbor.ByteString]T)
 			}
